@@ -278,7 +278,7 @@ def case_vector(ctx, rng):
     cplx = rng.random() < 0.3
     vals = gen.Values(rng, "int", "complex128" if cplx else "float64")
     ix = gen.rand_index(sr, rng, sym, maxc=4, maxd=3, p_single=0.05)
-    op = rng.choice(["vv_add", "vv_sub", "vv_mul", "vv_div", "vv_pow", "vs", "sv", "abs", "sqrt", "log", "log2", "log10", "clip", "isfinite", "minmax", "neg"])
+    op = rng.choice(["vv_add", "vv_sub", "vv_mul", "vv_div", "vv_pow", "vs", "sv", "abs", "sqrt", "log", "log2", "log10", "clip", "isfinite", "minmax", "neg", "inplace", "inplace", "allany", "clip_open"])
     ctx.count("vectorop", op)
     pos = op in ("sqrt", "log", "log2", "log10", "vv_pow")
     v = rand_vector(sr, rng, ix, vals, positive=pos)
@@ -316,6 +316,49 @@ def case_vector(ctx, rng):
         judge_forms(ctx, op, {"operator": lambda: fn(v, w)}, None, exp, wit, vector_ref=union, exact=op != "vv_div", scale=1.0, rtol=1e-12, nontrivial=(op, tuple(sorted(map(repr, v.blocks))), tuple(sorted(map(repr, w.blocks)))) if diff else None)
         if op in ("vv_add", "vv_mul"):
             judge_forms(ctx, op + "_swapped", {"operator": lambda: fn(w, v)}, None, fn(b, a), wit, vector_ref=union)
+        return
+    if op == "inplace":
+        # augmented assignment: the same value as the binary operator, delivered in the left operand
+        which = rng.choice(["+", "-", "*", "/", "**"])
+        ifn = {"+": operator.iadd, "-": operator.isub, "*": operator.imul, "/": operator.itruediv, "**": operator.ipow}[which]
+        fn = {"+": operator.add, "-": operator.sub, "*": operator.mul, "/": operator.truediv, "**": operator.pow}[which]
+        with_vec = rng.random() < 0.6
+        v2 = sr.BlockVector({c: np.abs(b) + 1 for c, b in v.blocks.items()}) if which in ("/", "**") else v
+        if with_vec:
+            # same stored sectors (what the binary operator accepts for every operator)
+            w = sr.BlockVector({c: (np.round(np.abs(vals(b.shape))) % 3 + 1).astype(b.dtype) if which in ("/", "**") else vals(b.shape) for c, b in v2.blocks.items()})
+            other, dother = w, embed_vec(w, own)
+            wit["w"] = {repr(k): repr(b.tolist()) for k, b in w.blocks.items()}
+        else:
+            other = dother = rng.choice([2.0, -3.0, 0.5, 3]) if which != "**" else rng.choice([2, 3])
+            wit["s"] = other
+        with np.errstate(all="ignore"):
+            exp = fn(embed_vec(v2, own), dother)
+
+        def run_inplace():
+            t = sr.BlockVector({c: np.array(b) for c, b in v2.blocks.items()})
+            r = ifn(t, other)
+            if r is not t:
+                raise AssertionError("augmented assignment returned a different object")
+            return r
+
+        ctx.count("feature", "vector-inplace-" + ("vector" if with_vec else "scalar"))
+        judge_forms(ctx, f"v{which}=", {"operator": run_inplace}, None, exp, wit, vector_ref=own, exact=which not in ("/", "**"), nontrivial=nt and (nt, which, with_vec))
+        return
+    if op == "allany":
+        bv = sr.BlockVector({c: (np.abs(b) > rng.choice([0, 1, 2, 3])) for c, b in v.blocks.items()})
+        dbv = embed_vec(bv, own)
+        judge_forms(ctx, "all", {"method": lambda: bv.all(), "function": lambda: sr.all(bv), "autoray": lambda: ar.do("all", bv)}, None, bool(dbv.all()), wit, scalar=True, nontrivial=nt)
+        judge_forms(ctx, "any", {"method": lambda: bv.any(), "function": lambda: sr.any(bv), "autoray": lambda: ar.do("any", bv)}, None, bool(dbv.any()), wit, scalar=True)
+        return
+    if op == "clip_open":
+        # one-sided and zero bounds
+        lo, hi = rng.choice([(0, None), (None, 0), (0.0, None), (None, 0.0), (0, 0), (None, 2), (-1, None), (0, 2), (-2, 0)])
+        if cplx:
+            v = sr.BlockVector({c: b.real.copy() for c, b in v.blocks.items()})
+            dv = dv.real
+        forms = {"method": lambda: v.clip(lo, hi), "function": lambda: sr.clip(v, lo, hi), "autoray": lambda: ar.do("clip", v, lo, hi)}
+        judge_forms(ctx, "clip", forms, None, np.clip(dv, lo, hi), dict(wit, lo=lo, hi=hi), vector_ref=own, nontrivial=nt)
         return
     if op in ("vs", "sv"):
         s = rng.choice([2.0, -3.0, 0.5, 3])
